@@ -353,3 +353,32 @@ package decoder
 //@   ensures e == nil ==> r != nil && r.bitMatrix == bitMatrix && r.parsedVersion == nil
 //@   ensures e != nil ==> r == nil
 //@   modifies nothing
+
+// ---------------------------------------------------------------- numeric and alphanumeric segments (8.4.2, 8.4.3), C01 / C06
+// the decoder consumes exactly the payload the encoder emits for `count` characters (10 bits per three digits, then 7 or 4;
+// 11 bits per two alphanumeric characters, then 6) and appends `count` characters of the mode's alphabet
+//@ spec func numBits(n int) int = 10 * (n / 3) + (n % 3 == 2 ? 7 : (n % 3 == 1 ? 4 : 0))
+//@ spec func alnBits(n int) int = 11 * (n / 2) + 6 * (n % 2)
+//@ func DecodedBitStreamParser_decodeNumericSegment(bits *common.BitSource, result []byte, count int) (r []byte, e error)
+//@   property C01 C06
+//@   opt tier=thorough
+//@   let count0 = old(count)
+//@   let len0 = old(len(result))
+//@   requires bits != nil && common.wfBS(bits) && len(bits.bytes) <= 1000000 && 0 <= count && count <= 100000 && len(result) <= 1000000
+//@   ensures e == nil ==> len(r) == len0 + count0 && common.availBS(bits) == old(common.availBS(bits)) - numBits(count0)
+//@   ensures e == nil ==> forall k int :: len0 <= k && k < len(r) ==> 48 <= int(r[k]) && int(r[k]) <= 57
+//@   ensures e == nil ==> forall k int :: 0 <= k && k < len0 ==> r[k] == old(result[k])
+//@   ensures e != nil ==> implements(e, gozxing.FormatException)
+//@   loop 0: invariant 0 <= count && count <= count0 && (count0 - count) % 3 == 0 && common.wfBS(bits) && bits.bytes == old(bits.bytes) && len(result) == len0 + (count0 - count) && common.availBS(bits) == old(common.availBS(bits)) - 10 * ((count0 - count) / 3)
+//@   loop 0: invariant forall k int :: len0 <= k && k < len(result) ==> 48 <= int(result[k]) && int(result[k]) <= 57
+//@   loop 0: invariant forall k int :: 0 <= k && k < len0 ==> result[k] == old(result[k])
+//@   loop 0: decreases count
+
+// byte segment: reads exactly `count` bytes (8 bits each) when they are available, otherwise fails without reading
+//@ func DecodedBitStreamParser_decodeByteSegment(bits *common.BitSource, result []byte, count int, currentCharacterSetECI *common.CharacterSetECI, byteSegments [][]byte, hints map[gozxing.DecodeHintType]interface{}) (r []byte, segs [][]byte, e error)
+//@   property C01 C06 C15
+//@   opt check=asserts,safety.index,safety.make
+//@   requires bits != nil && common.wfBS(bits) && len(bits.bytes) <= 1000000 && 0 <= count && count <= 100000
+//@   assert call(Append,0): len(readBytes) == count && common.availBS(bits) == old(common.availBS(bits)) - 8 * count && 8 * count <= old(common.availBS(bits))
+//@   loop 0: invariant 0 <= i && i <= count && len(readBytes) == count && common.wfBS(bits) && bits.bytes == old(bits.bytes) && common.availBS(bits) == old(common.availBS(bits)) - 8 * i && 8 * count <= old(common.availBS(bits))
+//@   loop 0: decreases count - i
